@@ -595,6 +595,72 @@ def check_byte_order(fx, rep, cg):
     )
 
 
+def check_pc_value(fx, rep, rule="R07.2"):
+    """PC pushes the offset of the PC instruction itself: the constant it builds is the current instruction pointer converted to
+    a word, with no arithmetic on the way."""
+    tables_ops = {int(r[0], 16): r[1] for r in tables.read("evm_opcodes.tsv")}
+    pc_byte = next((x for x, mn in tables_ops.items() if mn == "PC"), None)
+    dm = DisasmModel(fx)
+    t = None
+    for a in dm.arms:
+        if pc_byte in a["bytes"]:
+            ts = sorted({t for t, _ in a["ctors"]})
+            t = ts[0] if len(ts) == 1 else None
+    exec_body = {i.get("self_adt"): b for i, b in fx.trait_method_bodies("opcode::Opcode", "execute")}
+    b = exec_body.get(t)
+    if not rep.anchor(rule, b is not None, "the implementation of the PC opcode (byte 0x58)"):
+        return
+    root = b["hir"]["value"]
+    mutated = T.mutated_locals(root)
+    ok = False
+    why = "no constant built from the instruction pointer is pushed"
+    for c, cps in F.calls(root):
+        if c.get("k") == "MethodCall" and c["method"] in ("known", "known_exec") and len(c["args"]) >= 2:
+            vt = T.term(c["args"][1], T.env_at(cps, c, mutated), mutated)
+            ops = [st for st in T.subterms(vt) if st[0] == "bin" or (st[0] == "call" and isinstance(st[1], str) and F.strip_generics(st[1]).split("::")[-1] in ("saturating_sub", "saturating_add", "wrapping_sub", "wrapping_add", "checked_sub", "checked_add", "pred", "succ"))]
+            from_ip = any(st[0] == "call" and isinstance(st[1], str) and F.strip_generics(st[1]).endswith("instruction_pointer") for st in T.subterms(vt))
+            if from_ip and not ops:
+                ok = True
+            elif from_ip:
+                why = f"the pushed constant is computed from the instruction pointer with arithmetic (`{T.short(vt)[:60]}`)"
+    rep.oblige(ok, rule, "pc-value", F.loc(b["span"]), f"PC does not push the offset of the PC instruction itself: {why}; every jump target computed from PC is off", sample={"rule": rule, "opcode": "PC", "pushes": "instruction pointer as it stands" if ok else why})
+
+
+def check_conversion_width(fx, rep, rule="R07.4"):
+    """The conversions of a word to `usize` / `u64` (used as memory keys, sizes and offsets) keep as many bits as the target
+    holds: they must not route through a narrower integer."""
+    KW = "vm::value::known::KnownWord"
+    n = 0
+    narrow = ("as_u8", "as_u16", "as_u32", "as_i8", "as_i16", "as_i32")
+    for i in fx.impls:
+        tr = i.get("trait_full") or i.get("trait") or ""
+        if "std::convert::From<" not in tr or KW not in tr:
+            continue
+        target = i.get("self_ty") or i.get("self_adt") or ""
+        if target.strip() not in ("usize", "u64", "u128"):
+            continue
+        for it in i.get("items", []):
+            b = fx.body(it["def"])
+            if not b or not b.get("hir"):
+                continue
+            n += 1
+            rep.fn(b["def"])
+            bad = []
+            for c, _ in F.calls(b["hir"]["value"]):
+                nm = F.strip_generics(F.callee(c) or F.callee_def(c) or "")
+                last = nm.split("::")[-1]
+                if last in narrow:
+                    bad.append(last)
+                rt = (c.get("ty") or "").strip()
+                if rt in ("u8", "u16", "u32", "i8", "i16", "i32"):
+                    bad.append(f"{last}->{rt}")
+            for x, _ in F.walk(b["hir"]["value"]):
+                if x.get("k") == "Cast" and (x["e"].get("ty") or "").strip() in ("u8", "u16", "u32", "i8", "i16", "i32"):
+                    bad.append("cast from " + x["e"]["ty"].strip())
+            rep.oblige(not bad, rule, f"conversion-width:{target.strip()}:{it['def'][-40:]}", F.loc(b["span"]), f"the conversion of a word to `{target.strip()}` goes through a narrower integer ({sorted(set(bad))}): constants that differ only above those bits name the same memory word / size", sample={"rule": rule, "impl": tr[:60], "target": target.strip()})
+    rep.floor(rule, n, 1, "conversions of a word to usize / u64")
+
+
 def check_key_agreement(fx, rep, cg):
     """Writers and readers of one keyed store (storage, memory) must normalise the key the same way before looking it up:
     a write filed under `fold(key)` is invisible to a read that looks under `key`."""
@@ -657,6 +723,11 @@ def check(fx, rep, tier):
     check_r074(fx, rep, cg)
     check_key_agreement(fx, rep, cg)
     check_byte_order(fx, rep, cg)
+    check_pc_value(fx, rep)
+    check_conversion_width(fx, rep)
+    from .c18 import check_limit_writers
+
+    check_limit_writers(fx, rep, "R07.2", "value_size_limit")
     # the path's storage/memory history lists every write (append-only, unconditional) — shared with C06 R06.1
     from .c06 import check_r061
     from .c18 import check_r184
